@@ -316,6 +316,7 @@ TWINS_SRC = '''
 from tawazi import xn, dag
 import twzmc.harness as H
 import twzmc.ir as IRL
+import functools
 
 @xn
 def add(*a, **k):
@@ -357,6 +358,52 @@ def twins(x):
     r5 = D2(r4)
     return r1, r2, r3, r4, r5
 
+@dag
+def fw_inner(a, b):
+    return add(a, b)
+
+@dag(max_concurrency={mc})
+def fw_mid(x, y=100):
+    # a parameter WITH a default handed on to an inner DAG: its value is only known when fw_mid is called
+    return fw_inner(x, y)
+
+@dag(max_concurrency={mc}, is_async={is_async})
+def fw_top(z, w=7):
+    r1 = fw_mid(z, 6)
+    r2 = fw_mid(z)
+    r3 = fw_mid(z, w)
+    return r1, r2, r3
+
+def _remember(memory, v):
+    memory.append(v)
+    return list(memory)
+
+remember = xn(functools.partial(_remember, []))   # a node function that carries state: every call SITE owns a copy of it
+
+@dag
+def rem_inner(v):
+    s = remember(v)
+    return s, inc(s[0])
+
+@dag
+def rem_mid(v):
+    s, t = rem_inner(v)
+    return {{"s": s, "t": t}}
+
+@dag(max_concurrency={mc}, is_async={is_async})
+def stateful_flat(a, b):
+    s1 = remember(a)
+    t1 = inc(s1[0])
+    s2 = remember(add(t1, b))
+    t2 = inc(s2[0])
+    return s1, t1, s2, t2
+
+@dag(max_concurrency={mc}, is_async={is_async})
+def stateful_nested(a, b):
+    s1, t1 = rem_inner(a)
+    d = rem_mid(add(t1, b))
+    return s1, t1, d["s"], d["t"]
+
 @dag(max_concurrency={mc}, is_async={is_async})
 def many(x):
     outs = []
@@ -367,6 +414,12 @@ def many(x):
     side = [inner(x) for _ in range(2)]
     return tuple(outs) + tuple(side)
 '''
+
+
+def _aw(d, *a):
+    async def op():
+        return await d(*a)
+    return op
 
 
 def twins_case(acc, c):
@@ -394,6 +447,24 @@ def twins_case(acc, c):
                     v = v + 1 + 5
                     chain.append(v)
                 want_many = tuple(chain) + (x + 6, x + 6)
+                # differential: the hand-inlined body (run first, on this tree) says what the nested version has to return
+                rf = H.run_controlled((lambda: ns["stateful_flat"](x, 4)) if not is_async else _aw(ns["stateful_flat"], x, 4), is_async=is_async)
+                rn = H.run_controlled((lambda: ns["stateful_nested"](x, 4)) if not is_async else _aw(ns["stateful_nested"], x, 4), is_async=is_async)
+                acc.evaluations += 2
+                if x == 0:
+                    acc.mark_nontrivial(("stateful", mc, is_async))
+                    if rf.outcome != "return" or rn.outcome != "return" or rn.value != rf.value:
+                        acc.violation(V("wrong_value", f"stateful node function: body written in place returns {rf.value!r} ({rf.outcome}), the same body through DAGs called inside the DAG "
+                                        f"returns {rn.value!r} ({rn.outcome} {rn.exc!r})", dag="stateful"), dict(c, dag="stateful", mc=mc, is_async=is_async, x=x), (), rn.trace, TWINS_SRC)
+                for name, args_, want_ in (("fw_mid", (x,), x + 100), ("fw_mid", (x, 6), x + 6), ("fw_top", (x,), (x + 6, x + 100, x + 7)),
+                                           ("fw_top", (x, 1), (x + 6, x + 100, x + 1))):
+                    a_ = is_async and name != "fw_mid"  # (the DAG that is nested is a sync DAG)
+                    rr = H.run_controlled((lambda: ns[name](*args_)) if not a_ else _aw(ns[name], *args_), is_async=a_)
+                    acc.evaluations += 1
+                    acc.mark_nontrivial(("forwarded_default", name, len(args_), mc, is_async))
+                    if rr.outcome != "return" or rr.value != want_:
+                        acc.violation(V("wrong_value", f"{name}{args_} (a defaulted parameter forwarded to an inner DAG) returned {rr.value!r} ({rr.outcome} {rr.exc!r}), plain Python gives {want_!r}",
+                                        dag=name), dict(c, dag=name, mc=mc, is_async=is_async, x=x), (), rr.trace, TWINS_SRC)
                 for name, want in (("twins", want_twins), ("many", want_many)):
                     d = ns[name]
                     if is_async:
